@@ -490,32 +490,22 @@ func runC08(c *core.Ctx, o Options) {
 	w.checkStartAlwaysArms("W3")
 	w.checkSettingsFixedAfterArming("W3")
 	w.checkAcceptorArms("W3")
+	// W3 (premise): N is the number the peer wrote — Int.FromBytes is the exact decimal inverse of the formatter (base 10, no prefixes)
+	checkCodecs(c, "W3", map[string]bool{"frombytes": true, "type:Int": true})
 	c.Explanation += " W3 also: on no path of any entry point is Session.LogonSettings (or a field of it) assigned after the timers have been armed on that path (start() called or the logon event triggered): the interval the session reports is the interval it heartbeats with."
 	// W1 (premise): retransmissions pass the outgoing handlers too — SendBatch hands every element to DefaultHandler.send
 	checkBatchDelivery(c, "W1")
+	// W1 (premise): a message that passed the refreshing handler is transmitted — after the two handler ranges only a failing
+	// serialization keeps it from the queue (a size limit or a filter placed behind the handlers re-arms the heartbeat timer for
+	// messages that never leave)
+	checkSendPathOrder(c, "W1")
 	// W2 (premise): the heartbeat goroutine can send at all — no function of the session returns with Session.mu (or any other
 	// mutex it took) still locked
-	for _, fn := range w.s.allFuncs() {
-		takes := false
-		an.AllInstrs(fn, func(in ssa.Instruction) {
-			if cc := an.CallOf(in); cc != nil {
-				if _, op, ok := an.LockOp(cc); ok && (op == "Lock" || op == "RLock") {
-					takes = true
-				}
-			}
-		})
-		if !takes {
-			continue
-		}
-		held := an.HeldAtReturn(fn)
-		bad := ""
-		for _, k := range an.SortedKeys(held) {
-			bad = fmt.Sprintf("%s returns with %s still locked under [%s]: the next sender — the heartbeat goroutine included — blocks for ever", an.NameOf(fn), k, held[k])
-		}
-		c.Check(bad == "", "W2", an.NameOf(fn), "every mutex taken is released on every return", fn.Pos(), "balanced", bad)
-	}
-	c.Explanation += " W1 premise: SendBatch hands every element to DefaultHandler.send (retransmissions pass the refreshing handler too). W2 premise: no function of package session returns with a mutex it took still locked."
-	c.RuleMin = map[string]int{"W1": 8, "W2": 4, "W3": 1, "W4": 5}
+	checkLocksReleased(c, "W2", libFuncs(c), "the next sender — the heartbeat goroutine included — blocks for ever (the message store's mutex is taken by every send when it saves)")
+	w.s.checkHandlersNeverCancel("W2", "the heartbeat goroutine leaves at its next wake-up although the session can be logged on again on the same connection, and never emits a Heartbeat again")
+	c.Explanation += " W2 premise: no registered message handler cancels the session context or stops the router on any path (the timers' goroutines end with the session, not with a message)."
+	c.Explanation += " W1 premise: SendBatch hands every element to DefaultHandler.send (retransmissions pass the refreshing handler too). W2 premise: no function of the library (session, handler, pools, bundled store) returns with a mutex it took still locked."
+	c.RuleMin = map[string]int{"W1": 12, "W2": 4, "W3": 3, "W4": 5}
 	c.MinObl = 10
 }
 
@@ -577,6 +567,27 @@ func runC09(c *core.Ctx, o Options) {
 			c.Check(why == "", "X1", an.NameOf(r.Fn), "an earlier all-types incoming handler stops the dispatch only on a store failure", r.Fn.Pos(), "returns true, or (store error) == nil",
 				"this all-types incoming handler can return false — "+why+" — and IncomingHandlerPool.Range then skips the handler that refreshes the probe timer and cancels the pending disconnect: that inbound message does not count as a sign of life")
 		}
+	}
+	// X1 (converse): only inbound messages count as a sign of life — the probe timer is refreshed by inbound handlers alone
+	{
+		inbound := map[*ssa.Function]bool{}
+		for _, r := range w.s.regs {
+			if r.In && r.Fn != nil {
+				inbound[r.Fn] = true
+			}
+		}
+		nRef := 0
+		for _, fn := range w.s.allFuncs() {
+			for _, u := range timerUses(fn) {
+				if u.Method != "Refresh" || u.Cell != cell {
+					continue
+				}
+				nRef++
+				c.Check(inbound[fn], "X1", an.NameOf(fn), "the probe timer is refreshed only by inbound message handlers", u.Call.Pos(), "registered with HandleIncoming",
+					an.NameOf(fn)+" refreshes "+cell.Comment+" (the timer the probe goroutine waits on) but is not an inbound message handler: the session's own traffic would count as a sign of life from the peer, and a silent peer is never probed or disconnected")
+			}
+		}
+		c.Check(nRef >= 1, "X1", "start", "refresh sites of the probe timer found", w.start.Pos(), fmt.Sprint(nRef), "no Refresh of the probe timer found")
 	}
 	// X2: period = time.Second × (H + T) with T = max(1, H/20), H the negotiated HeartBtInt (integer division)
 	{
@@ -653,8 +664,21 @@ func runC09(c *core.Ctx, o Options) {
 			snd := sends(t)
 			if len(st) != 1 || st[0].Name != "WaitingTestReqAnswer" || len(snd) != 1 || !hasKind(snd[0].Kinds, "TestRequest") || last.Kind != "loopback" {
 				bad = append(bad, "first expiry does not (only) enter WaitingTestReqAnswer and send one TestRequest: "+traceStr(t))
-			} else if st[0].Pos > snd[0].Pos && false {
-				bad = append(bad, "")
+			} else {
+				// the state is entered before the probe leaves: an answer processed between the two would find the state still
+				// SuccessfulLogged, reset nothing, and the next expiry would disconnect a peer that answered
+				iSt, iSnd := -1, -1
+				for i, e := range t.Events {
+					if e.Kind == "state" && iSt < 0 {
+						iSt = i
+					}
+					if e.Kind == "send" && iSnd < 0 {
+						iSnd = i
+					}
+				}
+				if iSt > iSnd {
+					bad = append(bad, "the TestRequest is sent before the session enters WaitingTestReqAnswer (an answer that is processed in between resets nothing, and the next expiry disconnects a peer that answered): "+traceStr(t))
+				}
 			}
 		case read&(WT|SL) == 0:
 			nIdle++
@@ -681,6 +705,34 @@ func runC09(c *core.Ctx, o Options) {
 		ob.Fail("disconnect paths: %d, probe paths: %d (need both): a silent peer would never be disconnected / probed", nDisc, nProbe)
 	} else {
 		ob.Ok("%d disconnect, %d probe, %d idle path(s)", nDisc, nProbe, nIdle)
+	}
+	// X3 (who may disconnect): the disconnect state is entered by the probe goroutine's second expiry only; anything else that
+	// enters it must have excluded the logged-on states (a logon deadline that tests !IsLogged() fires while the session's own
+	// probe is outstanding and cuts off a peer whose answer is still due)
+	{
+		nD := 0
+		for _, r := range w.s.roots() {
+			if r.Fn == pr {
+				continue
+			}
+			if _, isWriter := m.StateWriters[r.Fn]; isWriter {
+				continue
+			}
+			if r.Cat == "method" && !isExported(an.NameOf(r.Fn)) && w.s.inPkgCallers(r.Fn) > 0 {
+				continue
+			}
+			for _, t := range w.s.tr.Traces(r.Fn, m.AllStates) {
+				for _, e := range t.Events {
+					if e.Kind != "state" || e.Name != "Disconnect" {
+						continue
+					}
+					nD++
+					c.Check(e.Pre&(WT|SL) == 0, "X3", r.Name(), "only the probe goroutine disconnects a logged-on session", e.Pos, "state ∉ {SuccessfulLogged, WaitingTestReqAnswer} where Disconnect is entered",
+						r.Name()+" enters Disconnect with the state possibly "+m.SetString(e.Pre&(WT|SL))+": a session whose probe is outstanding is disconnected before the second period has elapsed, whatever the peer sends")
+				}
+			}
+		}
+		c.Extra["disconnect_sites_outside_probe"] = nD
 	}
 	// X4
 	w.s.checkEventMapping("M1", map[string]string{"Disconnect": "EventDisconnect"})
@@ -734,7 +786,9 @@ func runC09(c *core.Ctx, o Options) {
 	// X4 (premise): the session's own disconnect subscriber (cancel + Router.Stop) runs: subscribers run in registration order
 	checkEventPoolOrder(c, "X4")
 	c.Explanation += " X4 premise: event subscribers run in registration order (utils.EventHandlerPool appends; Trigger walks front to back)."
-	c.RuleMin = map[string]int{"M1": 3, "W4": 5, "X1": 9, "X2": 1, "X3": 4, "X4": 6}
+	c.Explanation += " X3 also: on the probe trace the change to WaitingTestReqAnswer precedes the send of the TestRequest. X1 converse: the timer the probe goroutine waits on is refreshed only by functions registered with HandleIncoming."
+	c.Explanation += " X3 also: no entry point other than the probe goroutine enters Disconnect with the state possibly SuccessfulLogged or WaitingTestReqAnswer. X4 also: Conn.Close holds no mutex when it closes the socket."
+	c.RuleMin = map[string]int{"M1": 3, "W4": 5, "X1": 11, "X2": 1, "X3": 4, "X4": 6}
 	c.MinObl = 14
 }
 
@@ -886,6 +940,22 @@ func checkCloseChain(c *core.Ctx, rule string) {
 				}
 			}
 		}
+		// … and without waiting for anything a stuck writer holds: closing the socket is what releases a Write blocked on a peer
+		// that no longer reads, so the close must not queue behind that Write's mutex
+		waits := ""
+		for _, f := range an.WithAnon(cc) {
+			an.AllInstrs(f, func(in ssa.Instruction) {
+				call, ok := in.(*ssa.Call)
+				if !ok || !call.Call.IsInvoke() || call.Call.Method.Name() != "Close" || !strings.HasSuffix(an.Render(call.Call.Value), ".conn") {
+					return
+				}
+				for k := range an.HeldAt(f, call) {
+					waits = k
+				}
+			})
+		}
+		c.Check(waits == "", rule, "Conn.Close", "the socket is closed without taking a mutex first", cc.Pos(), "no lock held at net.Conn.Close",
+			"Conn.Close takes "+waits+" before it closes the socket: a Write blocked on a peer that no longer reads holds that mutex until its deadline, so the close — and with it the end of the connection after the disconnect event — waits for the very thing it is meant to release")
 		c.Check(mustClose && nPaths > 0, rule, "Conn.Close", "the socket is closed on every path of the close", cc.Pos(), "net.Conn.Close on each path", "a path of Conn.Close returns without closing the socket (a half-close, a deferred close elsewhere): a reader blocked in Read on an idle peer is never released, so the connection's goroutines and Serve never end")
 	}
 }
@@ -1131,6 +1201,25 @@ func (w *wiring) checkAcceptorArms(rule string) {
 		}
 	}
 	c.Check(bad == "" && n > 0, rule, "inbound:Logon", "the acceptor's Logon handler arms the timers itself", lf.Pos(), fmt.Sprintf("%d approving path(s) call start()", n), bad)
+	// … and only for a Logon the application approved: start() is not a check, it arms the timers and spawns the heartbeat
+	// goroutine with the interval of this Logon — called before the verdict, a refused Logon leaves a heartbeat goroutine behind
+	// that runs with the refused interval next to the one of the Logon accepted later
+	early, nStart := "", 0
+	for _, t := range s.tr.Traces(lf, s.m.AllStates) {
+		approved := false
+		for _, e := range t.Events {
+			if e.Kind == "check" && e.Name == "app" && e.Outcome == "ok" {
+				approved = true
+			}
+			if e.Kind == "check" && e.Name == "start" {
+				nStart++
+				if read, _ := s.entryRead(t); read == s.m.Set("WaitingLogon") && !approved {
+					early = "start() is called before the application's verdict on path: " + traceStr(t)
+				}
+			}
+		}
+	}
+	c.Check(early == "" && nStart > 0, rule, "inbound:Logon", "the timers are armed only after the application approved the Logon", lf.Pos(), "check:app=ok precedes start()", early)
 }
 
 // periodTolerance reads a timer period as a linear form over the negotiated interval: period = time.Second × (H + T). It
